@@ -17,7 +17,9 @@ M_OPTS = [None, [], ["443:8081"], ["443:8081", "8443:9000"], ["443:8081,", "8443
           ["443:8081", "44330:8082", "8443:8083", "9443:8084", "8080:8085", "12345:8086"],
           ["443:443"], ["8443:8443", "443:8081"], ["44330:44330", "8443:443"],
           # a pair whose left side is the CLIENT port of the first TLS (40001) / first QUIC (40171) flow: the client port never changes
-          ["40001:7", "443:8081"], ["40171:7", "40001:443"], ["65535:65534", "1:65535"]]
+          ["40001:7", "443:8081"], ["40171:7", "40001:443"], ["65535:65534", "1:65535"],
+          # the server port is mapped to the number the first TLS / first QUIC client uses as its own port
+          ["443:40001", "8443:40171"], ["443:40171", "44330:40001"]]
 
 
 def describe(tier):
@@ -33,7 +35,8 @@ def describe(tier):
             "documented function taken from README.md and the -p/-m help texts",
             "QUIC flows are exported whatever their server port (the statement restricts only TCP); for them only the mapping "
             "rule and the unchanged client port are asserted",
-            "a flow's server is the side using the selected port; flows whose client port is itself a selected port are not generated",
+            "a flow's server is the side using the selected port; when both ports are selected ones (client port 44330 to server port 443 is "
+            "generated) the side that sends the first packet is the client; a client on a selected port towards an unselected port is not generated",
         ],
     }
 
@@ -59,6 +62,11 @@ def run_case(case):
         for i, port in enumerate(PORTS):
             flows.append(scen.quic_flow({"suite": 0x1301, "script": [("c", [(0, 10 + i)]), ("s", [(0, 20 + i)])]}, seed, 10 + i,
                                         v6=(ipver == "v6"), server_port=port))
+        # a TLS and a QUIC connection whose CLIENT port is itself a default server port (44330 lies in the ephemeral range), to 443
+        flows.append(scen.tls_flow({"version": v, "suite": code, "history": [("c", 41), ("s", 42)]}, seed, 30, v6=(ipver == "v6"), server_port=443))
+        flows.append(scen.quic_flow({"suite": 0x1301, "script": [("c", [(0, 43)]), ("s", [(0, 44)])]}, seed, 31, v6=(ipver == "v6"), server_port=443))
+        for f in flows[-2:]:
+            f.ends.client.port = 44330
         if shared:
             # the TLS connections to 443 and to 8443 come from ONE client endpoint (same address and source port) and go to one
             # server address: they differ in the server port only; the same for the QUIC connections to 443 and 9443
@@ -103,7 +111,7 @@ def run_case(case):
         for f in flows:
             sp = f.ends.server.port
             want_port = sp if mapping is None else mapping.get(sp, 8080)
-            sig = dict(cfg, flow=f.kind, server_port=sp)
+            sig = dict(cfg, flow=f.kind, server_port=sp, client_port_is_a_server_port=f.ends.client.port in (443, 44330))
             if f.kind == "tls":
                 convs = [c for c in an["tcp"].values() if c["client"] == f.ends.client.key() and c["server"][0] == f.ends.server.ip
                          and (c["c2s"], c["s2c"]) == (f.conn.plain["c"], f.conn.plain["s"])]
